@@ -130,7 +130,16 @@ func propC05(j *Job) {
 		bases = append(bases, 0, 1000, 1<<31-1, 1<<31, 0xFFFFFFFF, 0xFFFFFFFF-w/2)
 		cfgs = append(cfgs, cfg{w: w, bases: bases, depth: depthS})
 	}
-	for _, w := range []uint32{2048, 4032, 4160, getMaxTSNOffset(initialRecvBufSize)} {
+	// the window the association derives from every class of configured receive buffer size
+	wins := []uint32{2048, 4032, 4160}
+	seenW := map[uint32]bool{}
+	for _, rb := range []uint32{0, 1, 1500, 65536, initialRecvBufSize, 8 << 20, 16 << 20, 64 << 20, 1 << 30, 1<<31 - 1, 1 << 31, 0xFFFFFFFF} {
+		if w := getMaxTSNOffset(rb); !seenW[w] {
+			seenW[w] = true
+			wins = append(wins, w)
+		}
+	}
+	for _, w := range wins {
 		ww := ((w + 63) / 64) * 64
 		bases := []uint32{0, 1000, 1<<31 - 1, 0xFFFFFFFF, 0xFFFFFFFF - ww/2, 0xFFFFFFFF - ww + 1, 0xFFFFFFFF - 70, uint32(0) - ww - 2, 0xFFFFFFFF - 4100}
 		cfgs = append(cfgs, cfg{w: w, bases: bases, depth: depthL})
@@ -259,6 +268,11 @@ func compareRPQ(q *receivePayloadQueue, m *rpqModel, prevCum uint32) string {
 		t := lo + i
 		if q.hasChunk(t) != m.set[t] {
 			return fmt.Sprintf("member: hasChunk(cum%+d)=%v model %v", int64(int32(t-m.cum)), q.hasChunk(t), m.set[t])
+		}
+	}
+	for t := range m.set {
+		if off := t - m.cum; off > 65535 {
+			return fmt.Sprintf("gaps: a TSN accepted %d above the cumulative point cannot be named by a SACK (gap offsets are 16 bit): it is reported as offset %d", off, uint16(off))
 		}
 	}
 	got := q.getGapAckBlocks()
